@@ -382,6 +382,150 @@ func checkC13(c *Ctx) {
 		}
 	}
 
+	// ---- scanner loops test the character at their own index (K5)
+	r.Rule("C13.scan-index-agreement", "K5", "in the symbol/key-name scanners, the character tested by the loop condition is the one at the loop index on every edge (so the first character of a symbol is examined and one-character symbols survive)", 2)
+	for _, n := range []string{"inputrc.findEnd", "inputrc.decodeKey"} {
+		f := p.Func(n)
+		if f == nil {
+			r.Unk("C13.scan-index-agreement", n, "-", "anchor not found")
+			continue
+		}
+		r.Fn(n)
+		found := false
+		for _, l := range findLoops(f) {
+			// c = phi of grab(r, idx, end) values; i = integer phi in the same header
+			var cPhi, iPhi *ssa.Phi
+			for _, in := range l.Head.Instrs {
+				ph, ok := in.(*ssa.Phi)
+				if !ok {
+					break
+				}
+				allGrab := len(ph.Edges) > 0
+				for _, e := range ph.Edges {
+					if !isCallNamed(e, "inputrc.grab") {
+						allGrab = false
+					}
+				}
+				if allGrab {
+					cPhi = ph
+				}
+			}
+			if cPhi == nil {
+				continue
+			}
+			// the index phi is the one the grab calls refer to
+			for _, in := range l.Head.Instrs {
+				ph, ok := in.(*ssa.Phi)
+				if !ok {
+					break
+				}
+				if ph != cPhi && typeStr(ph.Type()) == "int" {
+					iPhi = ph
+				}
+			}
+			if iPhi == nil {
+				continue
+			}
+			found = true
+			good := true
+			why := ""
+			for k, e := range cPhi.Edges {
+				idx := e.(*ssa.Call).Call.Args[1]
+				iv := iPhi.Edges[k]
+				same := idx == iv
+				if !same {
+					// both are `iPhi + 1`
+					b1, ok1 := idx.(*ssa.BinOp)
+					b2, ok2 := iv.(*ssa.BinOp)
+					if ok1 && ok2 && b1.Op == token.ADD && b2.Op == token.ADD && b1.X == b2.X {
+						k1, _ := constInt(b1.Y)
+						k2, _ := constInt(b2.Y)
+						same = k1 == k2
+					}
+				}
+				if !same {
+					good = false
+					why = fmt.Sprintf("on edge %d the tested character is at `%s` while the index is `%s`", k, idx.String(), iv.String())
+				}
+			}
+			r.Check(good, "C13.scan-index-agreement", n+":scan-loop", p.Pos(l.Head.Instrs[0].Pos()), "tested character is r[index] on every edge", n+": "+why+" — the first character of a symbol is skipped and a one-character symbol/key name is lost")
+		}
+		if !found {
+			r.Unk("C13.scan-index-agreement", n+":scan-loop", p.Pos(f.Pos()), "scanner loop (phi of grab() results next to an index phi) not found — rule table needs review")
+		}
+	}
+
+	// ---- key-name modifiers (K4+K3, sibling of the quoted form)
+	r.Rule("C13.key-modifiers", "K4", "decodeKey encodes Control-Meta-x as ESC followed by Encontrol(x), Control-x as Encontrol(x) and Meta-x as Enmeta(x) — the same encodings the quoted notation produces", 3)
+	if DK := p.Func("inputrc.decodeKey"); DK != nil {
+		bf := blockFacts(DK)
+		// flags: bool phis compared in the final switch
+		trueFlags := func(in ssa.Instruction) map[ssa.Value]bool {
+			out := map[ssa.Value]bool{}
+			for fc := range factsAt(bf, in) {
+				if _, isPhi := fc.Cond.(*ssa.Phi); isPhi && fc.Val && typeStr(fc.Cond.Type()) == "bool" {
+					out[fc.Cond] = true
+				}
+			}
+			return out
+		}
+		var both map[ssa.Value]bool
+		okBoth := false
+		eachInstr(DK, func(in ssa.Instruction) {
+			ret, ok := in.(*ssa.Return)
+			if !ok {
+				return
+			}
+			// string([]rune{27, Encontrol(c)})
+			hasEsc, hasCtl, n := false, false, 0
+			for _, l := range backSlice(ret.Results[0], &SliceOpts{P: p, ElemOf: true, IsSource: func(v ssa.Value) bool { return isCallNamed(v, "inputrc.Encontrol") }}) {
+				n++
+				if k, ok := constInt(l.V); ok && k == 27 {
+					hasEsc = true
+				}
+				if l.Kind == LeafSource {
+					hasCtl = true
+				}
+			}
+			if hasEsc && hasCtl && n == 2 {
+				fl := trueFlags(in)
+				if len(fl) >= 2 {
+					okBoth, both = true, fl
+				}
+			}
+		})
+		r.Check(okBoth, "C13.key-modifiers", "inputrc.decodeKey:control+meta", p.Pos(DK.Pos()), "ESC + Encontrol(c) under both flags", "no return produces ESC followed by Encontrol(c) under both modifier flags: a key name with both Control- and Meta- is recorded as a different sequence than the quoted form \\M-\\C-x")
+		// single modifiers: the Encontrol / Enmeta results flowing into the one-rune return are each under one flag of `both`
+		for _, fnm := range []string{"inputrc.Encontrol", "inputrc.Enmeta"} {
+			okOne := false
+			eachInstr(DK, func(in ssa.Instruction) {
+				cl, ok := in.(*ssa.Call)
+				if !ok || calleeName(cl) != fnm {
+					return
+				}
+				fl := trueFlags(in)
+				if len(fl) == 1 {
+					for v := range fl {
+						if both == nil || both[v] {
+							// its result reaches a one-rune return
+							for _, ref := range referrersOf(cl) {
+								if _, isPhi := ref.(*ssa.Phi); isPhi {
+									okOne = true
+								}
+								if _, isCv := ref.(*ssa.Convert); isCv {
+									okOne = true
+								}
+							}
+						}
+					}
+				}
+			})
+			r.Check(okOne, "C13.key-modifiers", "inputrc.decodeKey:"+fnm, p.Pos(DK.Pos()), "applied under exactly one modifier flag", fnm+" is not applied under exactly one of the modifier flags on the way to the single-rune result")
+		}
+	} else {
+		r.Unk("C13.key-modifiers", "inputrc.decodeKey", "-", "anchor not found")
+	}
+
 	// ---- option setters write the matching field (K5)
 	r.Rule("C13.options", "K5", "WithApp/WithTerm/WithMode store their argument into the field of the same name", 3)
 	for opt, fld := range map[string]string{"inputrc.WithApp": "app", "inputrc.WithTerm": "term", "inputrc.WithMode": "mode"} {
